@@ -59,6 +59,7 @@ func scenarios(tier string) []vlib.Scenario {
 	// an option value the wire layer refuses by panicking (the caller recovers): later calls still work
 	out = append(out, vlib.Scenario{Name: params{"badqos", 0, 0}.name(), P: params{"badqos", 0, 0}})
 	if tier == "thorough" {
+		out = append(out, vlib.Scenario{Name: params{"closeoutage", 0, 2}.name(), P: params{"closeoutage", 0, 2}})
 		for _, a := range apis {
 			if a != "openup" && a != "meta" && a != "upclose" && a != "connclose" {
 				out = append(out, vlib.Scenario{Name: params{a, 1, 1}.name(), P: params{a, 1, 1}})
@@ -383,10 +384,14 @@ func (w *world) main() {
 	case "closeoutage":
 		w.unreachable = true
 		w.B.Cut(w.B.Live())
-		if vsched.Choose("close-when", 2) == 1 {
+		switch vsched.Choose("close-when", 3) {
+		case 1:
 			vsched.Sleep(3*time.Second, "h:outage") // several redial attempts have failed by now
+		case 2:
+			vsched.Sleep(30*time.Second, "h:outage") // the pause between two attempts has reached its cap (seconds)
 		}
-		w.timed("Conn.Close", callTimeout, false, func(ctx context.Context) error { return w.Conn.Close(ctx) })
+		// (a short context: the pause between two redial attempts is longer)
+		w.timed("Conn.Close", time.Second, false, func(ctx context.Context) error { return w.Conn.Close(ctx) })
 		api = "connclose"
 	case "openup":
 		w.timed("OpenUpstream", callTimeout, false, func(ctx context.Context) error {
